@@ -173,6 +173,7 @@ def main(mod):
     ap.add_argument("--scale", type=float, default=float(os.environ.get("VERIF_SCALE", "1")))
     ap.add_argument("--no-shrink", action="store_true")
     ap.add_argument("--no-evidence", action="store_true")
+    ap.add_argument("--no-selfcheck", action="store_true")
     a = ap.parse_args()
     seed = a.seed if a.seed is not None else int(os.environ.get("VERIF_SEED") or 0)
     t0 = time.time()
@@ -187,6 +188,7 @@ def main(mod):
         caps = world.probe_capabilities()
         if not all(caps.values()):
             raise HarnessError("scratch filesystem lacks a capability the monitors need: %s" % caps)
+        selfcheck = mod.selfcheck(a.tier, seed) if hasattr(mod, "selfcheck") and not a.no_selfcheck else None
         cases = mod.gen_cases(seed, a.tier, a.scale)
         log("%d cases, %d jobs" % (len(cases), sum(len(c["jobs"]) for c in cases)))
         results = orch.run_cases(cases, tag="main")
@@ -213,7 +215,6 @@ def main(mod):
             raise HarnessError("%d of %d cases could not be evaluated (their valid-by-construction inputs do not build even in a clean "
                                "directory), so this run decides nothing; first reason: %s" % (discarded, len(cases), json.dumps(why)[:1500]))
         det = determinism_selftest(mod, cases, results, 8 if a.tier == "quick" else 48)
-        selfcheck = mod.selfcheck(a.tier, seed) if hasattr(mod, "selfcheck") else None
         # ---- report
         for kid, h in known_hits.items():
             print("KNOWN-FINDING: property=%s %s (%s; matched %d case(s), e.g. %s)" % (
